@@ -28,6 +28,10 @@ GUARDS = [
      "elif self.forward_sampling == 'gumbel_hard':\n            self._check_gumbel_temperature()"),
     ("dense_gumbel_check", "dense", "LogicDense", "_check_gumbel_temperature",
      "if self.temperature <= 0:\n        raise ValueError('Temperature must be positive')"),
+    ("dense_walsh_sampling", "dense", "LogicDense", "forward_python",
+     "elif self.forward_sampling == 'gumbel_hard':\n                x = gumbel_sigmoid(x, tau=self.temperature, hard=True)\n            else:\n                raise ValueError(self.forward_sampling)"),
+    ("compiled_forward_sample_size", "compiled", "CompiledLogicNet", "_forward_with_groupsum",
+     "if x.ndim < 2 or int(np.prod(x.shape[1:])) != self._get_input_size():\n    raise ValueError"),
     ("unique_half", "functional", None, "get_unique_connections", "assert out_dim * 2 >= in_dim"),
     ("unique_max", "functional", None, "get_unique_connections", "n_max = int(in_dim * (in_dim - 1) / 2)\n    assert out_dim <= n_max"),
     ("gumbel_sigmoid_tau", "functional", None, "gumbel_sigmoid", "if tau <= 0:\n        raise ValueError('Temperature must be positive')"),
